@@ -32,6 +32,8 @@ type Cfg struct {
 	TsIncrement     uint64
 	Epoch           time.Time
 	SubscribeProbe  bool
+	SaltedSigs      bool // block signatures are randomised like ECDSA, see vt.SaltedSigs
+	PreDataTxOnly   bool // pre-commit shares are bound to (height, transactions) only, see vt.PreDataTxOnly
 }
 
 func (c *Cfg) AMEVOn(h uint32) bool { return c.AMEVHeight >= 0 && uint32(c.AMEVHeight) <= h }
@@ -154,6 +156,8 @@ func NewWorld(cfg Cfg, r Src, byz []int, watchFlag map[int]bool, mons []*Mon, ke
 	w := &World{Cfg: cfg, R: r, Byz: byz, Clock: cfg.Epoch, Mons: mons, KeepLog: keepLog, Cut: map[int]bool{}, Stats: map[string]int{}}
 	w.detRand = &detReader{}
 	rand.Reader = w.detRand
+	vt.PreDataTxOnly = cfg.PreDataTxOnly
+	vt.SaltedSigs, vt.SigSalt = cfg.SaltedSigs, 0
 	isByz := map[int]bool{}
 	for _, b := range byz {
 		isByz[b] = true
@@ -379,6 +383,12 @@ func (w *World) Render() string {
 	c := w.Cfg
 	fmt.Fprintf(&sb, "config: ids=%d validators=%s startTip=%d amev=%d tpb=%s maxtpb=%s inc=%d epoch=%s timed=%v byz=%v\n",
 		c.IDs, c.ValDesc, c.StartTip, c.AMEVHeight, c.TimePerBlock, c.MaxTimePerBlock, c.TsIncrement, c.Epoch.UTC().Format(time.RFC3339Nano), w.Timed, w.Byz)
+	if c.SaltedSigs {
+		sb.WriteString("block signatures are randomised (salted)\n")
+	}
+	if c.PreDataTxOnly {
+		sb.WriteString("pre-commit shares are bound to (height, transactions) only\n")
+	}
 	if len(w.PhaseRank) > 0 {
 		fmt.Fprintf(&sb, "phase skew (arrival rank of proposal/response/pre-commit/commit per node): %v\n", w.PhaseRank)
 	}
